@@ -74,7 +74,8 @@ def main(argv=None):
                 continue
             if p.returncode != 0 or not os.path.exists(out):
                 lines = (text or b'').decode('utf8', 'replace').strip().splitlines()
-                sys.stderr.write('--- shard %d exited %s ---\n%s\n' % (k, p.returncode, '\n'.join(lines[-25:])))
+                if not problems:
+                    sys.stderr.write('--- shard %d exited %s ---\n%s\n' % (k, p.returncode, '\n'.join(lines[-25:])))
                 problems.append('shard crashed (%s): %s' % (p.returncode, lines[-1][:200] if lines else 'no output'))
                 continue
             with open(out) as f:
